@@ -150,6 +150,18 @@ impl View {
                             }
                         }
                     }
+                    // 2b. an ill-formed datagram carrying the echoed nonce (best-effort decode): the
+                    // response was evidently built from it
+                    if chosen.is_none() {
+                        if let Some(e) = &echo {
+                            for &i in &cands {
+                                if recvs[i].class.is_err() && response_nonce(None, &recvs[i].data).as_ref() == Some(e) {
+                                    chosen = Some((i, "nonce-illformed", None));
+                                    break;
+                                }
+                            }
+                        }
+                    }
                     // 3. oldest unanswered datagram from that address
                     if chosen.is_none() {
                         // prefer a datagram of the response's own protocol (responses leave in
